@@ -93,7 +93,7 @@ func c13RPCLister[T any](order []cid.Cid, call func(since, until []byte, untilNo
 
 func TestVerif_C13_RPC(t *testing.T) {
 	acct := vacct.Get("C13")
-	vacct.RapidCheck(t, vacct.N(3, 150), func(rt *rapid.T) {
+	vacct.RapidCheck(t, vacct.N(3, 600), func(rt *rapid.T) {
 		tp, cleanup := NewTestingProtocol(vCtx, t, nil, nil)
 		defer cleanup()
 		svc := tp.Service.(*service)
